@@ -139,19 +139,52 @@ def _swap_site(fn, attr, what):
     return swap, restores
 
 
-def _protected(par, swap, restore, what):
-    """restore stands in the `finally` of a try that directly follows the swap's block position, with no read / loop
-    between the swap and the try"""
+SAFE_CALLS = {"BytesIO", "time.time"}     # calls allowed between a swap and its try (they cannot raise on the values they get)
+
+
+def _safe_stmt(st):
+    """a statement that cannot raise: a plain (annotated) assignment to a local whose value calls nothing but SAFE_CALLS"""
+    if not isinstance(st, (ast.Assign, ast.AnnAssign)):
+        return False
+    tgts = st.targets if isinstance(st, ast.Assign) else [st.target]
+    if not all(isinstance(t, ast.Name) for t in tgts):
+        return False
+    if st.value is None:
+        return True
+    for x in ast.walk(st.value):        # (the annotation of a local is not evaluated)
+        if isinstance(x, (ast.Await, ast.Yield, ast.YieldFrom, ast.Subscript)):
+            return False
+        if isinstance(x, ast.Call) and ast.unparse(x.func) not in SAFE_CALLS:
+            return False
+    return True
+
+
+def _protected(par, swap, restore, what, need_loop=False):
+    """-> (protected, swap_in_try).  protected: the restore is the FIRST statement of the `finally` of a try that either
+    follows the swap in the same block with nothing but `_safe_stmt`s in between, or holds the swap in its body with
+    nothing but `_safe_stmt`s before it; for the read loops the try body must hold the `while`."""
     tr = _in_finally_of(par, restore)
     if tr is None:
-        return False
+        return False, False
+    if tr.finalbody[0] is not restore:
+        raise TranslateError(f"{what}: line {restore.lineno}: the restore is not the first statement of its finally")
+    if tr.handlers or not tr.body:
+        raise TranslateError(f"{what}: the try holding the restore has except handlers / an empty body")
+    if need_loop and not _contains(tr.body, _is_loop):
+        raise TranslateError(f"{what}: the try holding the restore does not hold the read loop")
     blk = _block_of(par, swap)
-    if tr not in blk or blk.index(tr) < blk.index(swap) or not tr.body:
+    if blk is tr.body:
+        before = blk[:blk.index(swap)]
+        if not all(_safe_stmt(x) for x in before):
+            raise TranslateError(f"{what}: code that can fail stands in the try before the swap")
+        return True, True
+    if tr not in blk or blk.index(tr) < blk.index(swap):
         raise TranslateError(f"{what}: the try/finally holding the restore does not follow the swap in the same block")
     between = blk[blk.index(swap) + 1:blk.index(tr)]
-    if _contains(between, _is_loop) or _contains(between, _is_read) or _contains(between, lambda x: isinstance(x, (ast.Await, ast.Raise, ast.Return))):
-        raise TranslateError(f"{what}: code that can fail stands between the swap and the try")
-    return True
+    bad = [x for x in between if not _safe_stmt(x)]
+    if bad:
+        raise TranslateError(f"{what}: line {bad[0].lineno}: `{ast.unparse(bad[0])[:60]}` stands between the swap and the try and can fail")
+    return True, False
 
 
 def _shape_modifier():
@@ -173,9 +206,10 @@ def _shape_modifier():
             raise TranslateError(f"{what}: {len(restores)} restores")
         restore = restores[0]
         is_call = lambda x: isinstance(x, ast.Call) and isinstance(x.func, ast.Name) and x.func.id == "wrapped_func"
-        if _protected(par, swap, restore, what):
-            if not _contains(_in_finally_of(par, restore).body, is_call):
-                raise TranslateError(f"{what}: the try does not enclose the wrapped call")
+        prot, in_try = _protected(par, swap, restore, what)
+        if prot:
+            if in_try or not _contains(_in_finally_of(par, restore).body, is_call):
+                raise TranslateError(f"{what}: the try does not enclose the wrapped call / holds the swap")
             res[stack] = True
         else:
             blk = _block_of(par, swap)
@@ -200,8 +234,9 @@ def _shape_channel(stack):
     if not (isinstance(v, ast.Call) and isinstance(v.func, ast.Name) and v.func.id == "int" and len(v.args) == 1
             and isinstance(v.args[0], ast.Name) and v.args[0].id == "read_duration"):
         raise TranslateError(f"{what}: swap value is not int(read_duration)")
-    if _protected(par, swap, restore, what):
-        fin = True
+    prot, in_try = _protected(par, swap, restore, what, need_loop=True)
+    if prot:
+        fin = True      # (the channel assigns the args attribute directly: nothing can raise inside the swap itself)
     else:
         blk = _block_of(par, swap)
         if restore in blk and blk.index(restore) > blk.index(swap) and _contains(blk[blk.index(swap) + 1:blk.index(restore)], _is_loop):
@@ -217,7 +252,7 @@ def _shape_channel(stack):
             dflt = ast.literal_eval(n.body[0].value)
     if dflt is None:
         raise TranslateError(f"{what}: `if read_duration is None: read_duration = <literal>` not found")
-    return fin, _milli(dflt, f"{rel} default read_duration")
+    return fin, in_try, _milli(dflt, f"{rel} default read_duration")
 
 
 def _shape_read_callback(stack):
@@ -233,10 +268,12 @@ def _shape_read_callback(stack):
             and isinstance(v.orelse, ast.Attribute) and v.orelse.attr == "timeout_transport"):
         raise TranslateError(f"{what}: swap is not `read_timeout if read_timeout >= <c> else self.timeout_transport`")
     thr = _milli(v.test.comparators[0].value, f"{rel} read_timeout threshold")
-    fin = None
-    if len(restores) == 1 and _protected(par, swap, restores[0], what):
-        fin = True
-    elif len(restores) == 2:
+    fin, in_try = None, False
+    if len(restores) == 1:
+        prot, in_try = _protected(par, swap, restores[0], what, need_loop=True)
+        if prot:
+            fin = True
+    if fin is None and len(restores) == 2:
         a, b = restores
         pa = par.get(a)
         in_handler = isinstance(pa, ast.ExceptHandler) and any(isinstance(s, ast.Raise) for s in pa.body)
@@ -244,50 +281,67 @@ def _shape_read_callback(stack):
             fin = False            # the form before 9d6a16c: `except ScrapliTimeout: restore; raise` + restore before callback.run
     if fin is None:
         raise TranslateError(f"{what}: the restores of self.timeout_transport have an unrecognised form")
-    return fin, thr, _milli(_param_default(fn, "read_timeout", rel), f"{rel} read_timeout default")
+    return fin, in_try, thr, _milli(_param_default(fn, "read_timeout", rel), f"{rel} read_timeout default")
 
 
 # ---------------------------------------------------------------- tables
 def _driver_tables():
-    """decorated, takes (methods with a timeout_ops parameter), passes (edges handing timeout_ops on by keyword)"""
+    """decorated, takes (methods with a timeout_ops parameter), passes (edges handing timeout_ops on by keyword).
+    Every class of every module under scrapli/ is looked at; self./super(). calls are resolved to the class itself
+    (if it defines the method) or its first base."""
     decorated, takes, passes = [], [], []
-    for fam, base_of in ((GEN, {}), (NET, {"NetworkDriver": "GenericDriver", "AsyncNetworkDriver": "AsyncGenericDriver"})):
-        for stack in ("sync", "async"):
-            rel, cname = fam[stack]
-            c = _cls(rel, cname)
-            if cname in base_of and base_of[cname] not in [getattr(b, "id", None) for b in c.bases]:
-                raise TranslateError(f"{rel}: {cname} does not derive from {base_of[cname]}")
-            own = {n.name for n in c.body if isinstance(n, FUNC)}
-            for fn in c.body:
-                if not isinstance(fn, FUNC):
+    four = {GEN["sync"][1]: GEN["sync"][0], GEN["async"][1]: GEN["async"][0], NET["sync"][1]: NET["sync"][0], NET["async"][1]: NET["async"][0]}
+    need_base = {"NetworkDriver": "GenericDriver", "AsyncNetworkDriver": "AsyncGenericDriver"}
+    classes = []
+    for cname, rel in four.items():
+        classes.append((rel, _cls(rel, cname)))
+    for p in sorted((Path(REPO) / "scrapli").rglob("*.py")):
+        rel = str(p.relative_to(REPO))
+        for n in ast.walk(ast.parse(p.read_text())):
+            if isinstance(n, ast.ClassDef) and not (n.name in four and four[n.name] == rel):
+                classes.append((rel, n))
+            if isinstance(n, FUNC) and any(getattr(d, "id", getattr(d, "attr", None)) == "timeout_modifier" for d in n.decorator_list):
+                pass  # handled per class below; module-level functions:
+        for n in ast.parse(p.read_text()).body:
+            if isinstance(n, FUNC) and any(getattr(d, "id", getattr(d, "attr", None)) == "timeout_modifier" for d in n.decorator_list):
+                raise TranslateError(f"{rel}: module-level function {n.name} is decorated with timeout_modifier")
+    for rel, c in classes:
+        cname = c.name
+        bases = [getattr(b, "id", getattr(b, "attr", None)) for b in c.bases]
+        if cname in need_base and rel == four.get(cname) and need_base[cname] not in bases:
+            raise TranslateError(f"{rel}: {cname} does not derive from {need_base[cname]}")
+        base = need_base.get(cname) if rel == four.get(cname) else (bases[0] if bases else None)
+        own = {n.name for n in c.body if isinstance(n, FUNC)}
+        for fn in c.body:
+            if not isinstance(fn, FUNC):
+                continue
+            decs = [getattr(d, "id", getattr(d, "attr", None)) for d in fn.decorator_list]
+            if "timeout_modifier" in decs:
+                decorated.append((cname, fn.name))
+                if not _has_param(fn, "timeout_ops"):
+                    raise TranslateError(f"{rel}: {cname}.{fn.name} is decorated with timeout_modifier but has no timeout_ops parameter")
+            if fn.name in ("__init__", "__new__") or not _has_param(fn, "timeout_ops"):   # constructors: the configured value
+                continue
+            takes.append((cname, fn.name))
+            for call in ast.walk(fn):
+                if not (isinstance(call, ast.Call) and isinstance(call.func, ast.Attribute)):
                     continue
-                decs = [getattr(d, "id", getattr(d, "attr", None)) for d in fn.decorator_list]
-                if "timeout_modifier" in decs:
-                    decorated.append((cname, fn.name))
-                    if not _has_param(fn, "timeout_ops"):
-                        raise TranslateError(f"{rel}: {cname}.{fn.name} is decorated with timeout_modifier but has no timeout_ops parameter")
-                if fn.name == "__init__" or not _has_param(fn, "timeout_ops"):
+                kw = [k for k in call.keywords if k.arg == "timeout_ops"]
+                if not kw:
                     continue
-                takes.append((cname, fn.name))
-                for call in ast.walk(fn):
-                    if not (isinstance(call, ast.Call) and isinstance(call.func, ast.Attribute)):
-                        continue
-                    kw = [k for k in call.keywords if k.arg == "timeout_ops"]
-                    if not kw:
-                        continue
-                    if not (isinstance(kw[0].value, ast.Name) and kw[0].value.id == "timeout_ops"):
-                        raise TranslateError(f"{rel}: {cname}.{fn.name}: passes timeout_ops={ast.unparse(kw[0].value)} (not its own parameter)")
-                    recv, m = call.func.value, call.func.attr
-                    if isinstance(recv, ast.Name) and recv.id == "self":
-                        tcls = cname if m in own else base_of.get(cname)
-                    elif isinstance(recv, ast.Call) and getattr(recv.func, "id", None) == "super":
-                        tcls = base_of.get(cname)
-                    else:
-                        raise TranslateError(f"{rel}: {cname}.{fn.name}: timeout_ops handed to {ast.unparse(call.func)}")
-                    if tcls is None:
-                        raise TranslateError(f"{rel}: {cname}.{fn.name}: cannot resolve {ast.unparse(call.func)}")
-                    if ((cname, fn.name), (tcls, m)) not in passes:
-                        passes.append(((cname, fn.name), (tcls, m)))
+                if not (isinstance(kw[0].value, ast.Name) and kw[0].value.id == "timeout_ops"):
+                    raise TranslateError(f"{rel}: {cname}.{fn.name}: passes timeout_ops={ast.unparse(kw[0].value)} (not its own parameter)")
+                recv, m = call.func.value, call.func.attr
+                if isinstance(recv, ast.Name) and recv.id == "self":
+                    tcls = cname if m in own else base
+                elif isinstance(recv, ast.Call) and getattr(recv.func, "id", None) == "super":
+                    tcls = base
+                else:
+                    raise TranslateError(f"{rel}: {cname}.{fn.name}: timeout_ops handed to {ast.unparse(call.func)}")
+                if tcls is None:
+                    raise TranslateError(f"{rel}: {cname}.{fn.name}: cannot resolve {ast.unparse(call.func)}")
+                if ((cname, fn.name), (tcls, m)) not in passes:
+                    passes.append(((cname, fn.name), (tcls, m)))
     return decorated, takes, passes
 
 
@@ -322,9 +376,9 @@ def extract():
     mod = _shape_modifier()
     d = {"shape": {}, "chan_default": {}, "rt_threshold": {}, "rt_default": {}, "drv_default": {}}
     for stack in ("sync", "async"):
-        cf, cd = _shape_channel(stack)
-        bf, thr, rtd = _shape_read_callback(stack)
-        d["shape"][stack] = (mod[stack], cf, bf)
+        cf, chan_in_try, cd = _shape_channel(stack)
+        bf, swap_in_try, thr, rtd = _shape_read_callback(stack)
+        d["shape"][stack] = (mod[stack], cf, bf, swap_in_try, chan_in_try)
         d["chan_default"][stack], d["rt_threshold"][stack], d["rt_default"][stack] = cd, thr, rtd
         rel, cname = GEN[stack]
         d["drv_default"][stack] = _milli(_param_default(_method(_cls(rel, cname), "send_and_read", rel), "read_duration", rel), f"{rel} send_and_read read_duration")
@@ -350,10 +404,14 @@ def generate():
          "namespace Scrapli.Gen.TimeoutRestore\n",
          "/-! is the restoring assignment inside a `finally` that encloses the code run under the temporary value? -/\n"]
     for stack in ("sync", "async"):
-        m, c, b = d["shape"][stack]
+        m, c, b, w, g = d["shape"][stack]
         L.append(f"def {stack}ModFinally : Bool := {_b(m)}\n")
         L.append(f"def {stack}ChanFinally : Bool := {_b(c)}\n")
         L.append(f"def {stack}CbFinally : Bool := {_b(b)}\n")
+        L.append(f"/-- read_callback: the swapping assignment (its setter calls `_set_timeout`, which can raise) stands inside the try -/\n")
+        L.append(f"def {stack}CbSwapInTry : Bool := {_b(w)}\n")
+        L.append(f"/-- _read_until_prompt_or_time: the swapping assignment stands inside the try -/\n")
+        L.append(f"def {stack}ChanSwapInTry : Bool := {_b(g)}\n")
     L.append("/-! defaults, in thousandths of a second -/\n")
     for stack in ("sync", "async"):
         L.append(f"def {stack}ChanDefaultReadDuration : Int := {d['chan_default'][stack]}\n")
